@@ -123,3 +123,36 @@ Theorem C05_list_markers_are_the_source : forall line prepend,
   g_List_check_interrupts_paragraph line = list_interrupts line.
 Proof. exact list_markers_regenerated. Qed.
 Print Assumptions C05_list_markers_are_the_source.
+
+(* THE PROPERTY'S OWN HYPOTHESES AND NOTHING ELSE.  For lines as Document prepares them (each ends with its only newline:
+   `proper`) the flag kept for lists above follows too: a top-level list whose reading ran off the end of A is followed by
+   blank lines only (Proofs/ListEnds.v - ListItem.read gives back at most one line, a blank one; the continuation pattern,
+   evaluated exactly on a line with any mix of leading spaces and tabs, answers "\n" only for a line of white space), so it
+   would be A's last block.  What is left: A's last block is closed, and no top-level block of A is a link-definition block
+   (stable_run5 - the property excludes definitions). *)
+From Mistletoe Require Import Proofs.ListEnds.
+Theorem C05_last_block_closed_independent : forall types f A B st,
+  no_blankline_kind types = true -> Forall proper A ->
+  stable_run5 types (tokenize_block types f) (S (length A)) A 1 st = true ->
+  closed_last (entries (tokenize_block types (S f) A 1 st)) = true ->
+  let '(esA, _, stA) := tokenize_block types (S f) A 1 st in
+  entries (tokenize_block types (S f) (A ++ NL :: B) 1 st) =
+  esA ++ map (shift_pre (Z.of_nat (length A) + 1)) (entries (tokenize_block types (S f) B 1 stA)).
+Proof. exact last_block_closed_independent. Qed.
+Print Assumptions C05_last_block_closed_independent.
+
+Theorem C05_last_block_closed_hypotheses :
+  let A := [ $"- a" ++ [10]; $"- b" ++ [10]; [10]; $"  c" ++ [10]; $"1. x" ++ [10]; $"   - y" ++ [10]; [10]; $"+" ++ [10]; [10]; $"```" ++ [10]; $"z" ++ [10]; $"```" ++ [10]; $"para" ++ [10] ] in
+  stable_run5 block_types_html (tokenize_block block_types_html 5) (S (length A)) A 1 (mkPs true) = true /\
+  closed_last (entries (tokenize_block block_types_html 6 A 1 (mkPs true))) = true /\
+  length (entries (tokenize_block block_types_html 6 A 1 (mkPs true))) = 5%nat.
+Proof. exact last_block_closed_somewhere. Qed.
+Print Assumptions C05_last_block_closed_hypotheses.
+
+(* a list that ran off the end of the lines is followed by blank lines only *)
+Theorem C05_list_ran_off_is_last : forall types rec x X ln st p c st',
+  Forall proper (x :: X) -> list_runs_off types rec (S (length (x :: X))) (x :: X) ln None None st = true ->
+  start_read types rec BK_List (x :: X) ln st = Some (p, c, st') ->
+  has_nonblank (skipn c (x :: X)) = false.
+Proof. exact list_ran_off_is_last. Qed.
+Print Assumptions C05_list_ran_off_is_last.
